@@ -163,6 +163,14 @@ Definition topo_ok (stream topo : stream_t) : bool :=
   (length topo =? length stream)%nat &&
   forallb (fun nd => existsb (node_eqb0 nd) stream) topo &&
   order_respects_edges [] topo.
+(** graph.rs:192 prioritize_branch: the branch containing the given node comes first - the
+    first emitted node is that node or one of its descendants (it reaches the node through
+    emitted non-missing edges) *)
+Definition prio_ok (g : graph) (stream out : stream_t) (x : nat) : bool :=
+  match out with
+  | (h, _) :: _ => N.testbit (nth h (reach_tbl g stream) 0%N) (N.of_nat x)
+  | [] => false
+  end.
 (** graph.rs:95 reverse_graph: nodes in reverse order, every edge between two nodes turned
     around (edges leaving the node set have no reversed counterpart) *)
 Definition edge_triples (l : stream_t) : list (nat * nat * ekind) :=
@@ -185,6 +193,7 @@ Record walk := mk_walk {
   w_stream : list (nat * list edge);      (* impl: (node, [(target, type)]) in emission order *)
   w_topo : option stream_t;               (* impl: TopoGroupedGraph over that stream *)
   w_rev : option stream_t;                (* impl: reverse_graph of that stream *)
+  w_prio : option (nat * stream_t);       (* impl: TopoGroupedGraph with prioritize_branch(node) *)
 }.
 Record case := mk_case {
   c_graph : graph;
@@ -201,7 +210,11 @@ Definition okb (c : case) : bool :=
   negb (c_panicked c) && wfb g &&
   forallb (fun w => stream_ok g t (w_shown w) (w_stream w) &&
                     match w_topo w with Some tp => topo_ok (w_stream w) tp | None => true end &&
-                    match w_rev w with Some rv => reverse_ok (w_stream w) rv | None => true end)
+                    match w_rev w with Some rv => reverse_ok (w_stream w) rv | None => true end &&
+                    match w_prio w with
+                    | Some (x, out) => topo_ok (w_stream w) out && prio_ok g (w_stream w) out x
+                    | None => true
+                    end)
           (c_walks c).
 
 Definition check_case (c : case) : N :=
